@@ -21,16 +21,18 @@ CFG = {
     "harness_bin": "c20",
     "n": {"quick": 20000, "thorough": 300000},
     "exhaustive": {"quick": False, "thorough": False},
-    "trivial_tags": ["plain", "in-order", "ooo", "for", "provider", "router"],
+    "trivial_tags": ["plain", "in-order", "ooo", "for", "provider", "router", "effect"],
     "rule": "pairs (70%) and triples (30%) of view programs over leaf / eager leaf / on_cleanup / Provider / Suspend(gate) / Suspense / "
-            "Resource(gate) / For / fragment, nested to depth 3 (4 in thorough), one request in four routed (Router + FlatRoutes or Routes, the program being the matched route's view), in-order or out-of-order streams, rendered CONCURRENTLY on one "
+            "Resource(gate) / OnceResource, ArcOnceResource, blocking and Arc resources, AsyncDerived, ArcAsyncDerived, LocalResource / spawn_local_scoped task / "
+            "Action dispatched while rendering / Effect::new_isomorphic / arena items (RwSignal, StoredValue) allocated in a child owner and read after a later await / "
+            "For / fragment (every async leaf's future reports AFTER its own await), nested to depth 3 (4 in thorough), one case in three renders the SAME page in every request (same arena keys), one request in four routed (Router + FlatRoutes or Routes, the program being the matched route's view), in-order or out-of-order streams, rendered CONCURRENTLY on one "
             "thread through the real build_response; schedule = random sequence of start r / fire r g / ps r (r's tasks + stream to a fixpoint) / "
-            "poll i (i-th ready task of the controlled executor, any request) / drop r, then end; plus, exhaustively, ALL 80 interleavings of "
-            "{start r, fire r 1, ps r} for 6 (thorough: 8) fixed program pairs; every case is run in two build configurations (sandboxed-arenas with "
+            "poll i (i-th ready task of the controlled executor, any request) / drop r / abort r b (client abort: body dropped unpolled while request b's arena is current), then end; plus, exhaustively, ALL 80 interleavings of "
+            "{start r, fire r 1, ps r} for 8 (thorough: 10) fixed program pairs and all 102 interleavings x 2 of [start 0, ps 0, abort 0 1] with [start 1, ps 1, fire 1 1, ps 1] for 3 pages; every case is run in two build configurations (sandboxed-arenas with "
             "the real leptos_integration_utils::build_response; global arena with build_response reproduced). Oracle: each response's HTML and leaf log "
             "== the same request replayed ALONE with the same relative order of its own actions. Shared observable: per response, the context tags "
             "each leaf saw. distinct = distinct op text; trivial = no async boundary / cleanup / early drop (tags only in plain,in-order,ooo,for,provider). "
-            "One third of the random cases may contain the known class F-C20-1 (lazy leaf in the view of a Suspend outside Suspense); shapes of F-C20-2 "
+            "One third of the random cases may contain the known classes F-C20-1 (lazy leaf in the view of a Suspend outside Suspense) and F-C20-3 (Action future, its gate fired only by drop/abort/end); shapes of F-C20-4 (abort under a foreign arena of a page with on_cleanup), of F-C20-2 "
             "(Suspense or on_cleanup under a late-rendered Provider/Suspense) and nested Suspend-in-Suspend inside Suspense (timing-dependent content, C07) "
             "are only in the corpus / not generated",
     "trusted": [
@@ -40,13 +42,13 @@ CFG = {
     ],
     "modelled": [
         "thread-locals OWNER/OBSERVER/MAP", "Owner::with / set / unset / new_root", "WithObserver::with_observer", "ScopedFuture::poll", "Sandboxed::poll",
-        "spawn sites' wrapping flags (spawn_local_scoped, reactive_graph::spawn)", "use_context / provide_context", "ArenaItem allocation + Owner::cleanup of a root",
+        "spawn sites' wrapping flags (spawn_local_scoped = ScopedFuture+Sandboxed; reactive_graph::spawn = Sandboxed only: Action::dispatch, OnceResource (ScopedFuture at construction), ArcAsyncDerived tasks)", "use_context / provide_context", "ArenaItem allocation + Owner::cleanup of a root",
         "WHICH call sites are wrapped: modelled, not verified — checked by the correspondence (two unwrapped sites found: F-C20-1/2)",
         "slotmap key uniqueness", "ScopedFuture::new without a current owner (unwrap_or_default) not modelled",
     ],
     "assumptions": [
         "one OS thread (thread-locals are per thread: cross-thread interleavings reduce to this case per thread; real multi-thread scheduling is out of reach)",
-        "router: one static route matched on the server (FlatRoutes::choose_ssr, Routes/Outlet); no navigation, no nested ParentRoute; ErrorBoundary, Transition, islands, OnceResource, LocalResource are not in the program grammar",
+        "router: one static route matched on the server (FlatRoutes::choose_ssr, Routes/Outlet); no navigation, no nested ParentRoute; ErrorBoundary, Transition, islands, MultiAction, server-fn handlers (handle_server_fns) are not in the program grammar",
     ],
     "manifest": {
         "category": "proof",
@@ -56,9 +58,9 @@ CFG = {
                 "solo run (C20_wrapped_isolated, non-interference by induction over the schedule); Owner::with/with_observer restore on exit (C20_with_restores); "
                 "cleaning up one root disposes nothing of another, global or per-request arenas (C20_drop_frame); the unhypothesised statement is refuted by a "
                 "kernel-checked witness (C20_unwrapped_leaks_witness: one unwrapped task leaks). WHICH real call sites are wrapped is modelled, not verified: the "
-                "correspondence exercises the real call sites (build_response, Suspend, Suspense, Resource, Provider, For, Router/FlatRoutes/Routes, on_cleanup; two arena configurations) "
+                "correspondence exercises the real call sites (build_response, Suspend, Suspense, Resource/OnceResource/AsyncDerived families, Action, spawn_local_scoped, isomorphic effects, Provider, For, Router/FlatRoutes/Routes, on_cleanup, arena items of child owners, client aborts; two arena configurations) "
                 "under controlled interleavings and compares every response with its solo render; it found the view of a Suspend outside Suspense rendered "
-                "unwrapped by the stream (known findings F-C20-1/2).",
+                "unwrapped by the stream (known findings F-C20-1/2), an Action's future spawned unscoped (F-C20-3) and cleanups of an aborted response running under a foreign arena (F-C20-4).",
         "design_ref": "DESIGN.md §7 C20",
         "note": "partial: proof is about the discipline model; the tie to the code is the differential run over the program grammar",
         "technique": "Lean 4 proof (simulation/non-interference over all schedules) + refutation witness + differential correspondence with solo-render oracle",
